@@ -191,19 +191,69 @@ fn self_check(alpha: &[&str], max_len: usize, accepted_by_len: &[u64]) -> Result
 /// Sequences in which an option word stands where a primary may stand (find's grammar lists
 /// options among the primaries): judged by the text-level reference, for which a leading run of
 /// options is removed and any other option reads as -true.
+/// Every primary of the vocabulary (with a member of its argument language), and primaries whose
+/// argument word is itself an operator or keyword spelling, as the 8th word of a small alphabet.
+fn special_primaries() -> Vec<String> {
+    use speclib::textspec::{ArgKind as K, VOCAB};
+    let mut v = vec![];
+    for kw in VOCAB {
+        let args: Vec<&str> = kw
+            .args
+            .iter()
+            .map(|a| match a {
+                K::Str => "x",
+                K::U32Cmp | K::U64Cmp => "+5",
+                K::SizeCmp => "-5k",
+                K::TimeCmpMin | K::TimeCmpDay => "5",
+                K::TypeList => "f,d",
+                K::Perm => "/u+w",
+                K::Format => "'%p\\n'",
+                K::U32 => "3",
+            })
+            .collect();
+        if kw.word == "-true" || kw.word == "-depth" {
+            continue;
+        }
+        v.push(std::iter::once(kw.word).chain(args).collect::<Vec<_>>().join(" "));
+    }
+    for a in ["-o", "-a", "-or", "-and", "!", ",", "-print", "-depth", "-name", "-quit", "-not", "--", "-"] {
+        v.push(format!("-name {a}"));
+    }
+    v.push("-fprint -o".into());
+    v.push("-path -a".into());
+    v.push("-xattr-match -o -a".into());
+    v
+}
+
+fn vocabulary_sequences(max_len: usize) -> Acc {
+    let specials = special_primaries();
+    let mut total = Acc::new();
+    for sp in &specials {
+        total = total.merge(sequences_with(&["(", ")", "!", ",", "-a", "-o", "-true", sp.as_str()], 7, max_len));
+    }
+    total.count("special_primaries", specials.len() as u64);
+    total
+}
+
 fn option_sequences(max_len: usize) -> Acc {
-    const WORDS12: [&str; 12] = ["(", ")", "!", ",", "-a", "-and", "-o", "-or", "-true", "-name a,b", "-print", "-depth"];
+    sequences_with(&["(", ")", "!", ",", "-a", "-and", "-o", "-or", "-true", "-name a,b", "-print", "-depth"], 11, max_len)
+}
+
+/// All sequences up to `max_len` over `alphabet` that contain the word at index `must`, judged by
+/// the text-level reference.
+fn sequences_with(alphabet: &[&str], must: usize, max_len: usize) -> Acc {
+    let na = alphabet.len() as u64;
     let mut total = Acc::new();
     for len in 1..=max_len {
-        let n = 12u64.pow(len as u32);
+        let n = na.pow(len as u32);
         total = total.merge(par_cases(n, |mut idx, acc| {
             let mut w = Vec::with_capacity(len);
             let mut has_opt = false;
             for _ in 0..len {
-                let k = (idx % 12) as usize;
-                has_opt |= k == 11;
-                w.push(WORDS12[k]);
-                idx /= 12;
+                let k = (idx % na) as usize;
+                has_opt |= k == must;
+                w.push(alphabet[k]);
+                idx /= na;
             }
             if !has_opt {
                 return; // covered by the main sweep
@@ -401,7 +451,8 @@ pub fn run(ctx: &Ctx) -> i32 {
     acc = acc.merge(long_sentences());
     acc = acc.merge(histories());
     acc = acc.merge(option_sequences(ctx.tier.pick(5, 6)));
-    let mut bound = format!("all word sequences of length 1..{n11} over {} words; all sequences up to length {} containing the option word -depth (text-level reference); chains of 2..20 and of 31..600 primaries (every size in the range) under each operator spelling and juxtaposition, within 4 KiB; 1..64-fold negation and parentheses", WORDS11.len(), ctx.tier.pick(5, 6));
+    acc = acc.merge(vocabulary_sequences(ctx.tier.pick(4, 5)));
+    let mut bound = format!("all word sequences of length 1..{n11} over {} words; all sequences up to length {} containing the option word -depth, and all sequences up to length {} over (, ), !, ',', -a, -o, -true and one of ~70 special primaries (every vocabulary keyword with an argument, and primaries whose argument word is an operator or keyword spelling) (text-level reference); chains of 2..20 and of 31..600 primaries (every size in the range) under each operator spelling and juxtaposition, within 4 KiB; 1..64-fold negation and parentheses", WORDS11.len(), ctx.tier.pick(5, 6), ctx.tier.pick(4, 5));
     if ctx.tier == Tier::Thorough {
         let a9 = sweep(&WORDS9, 9, 9);
         acc = acc.merge(a9);
